@@ -17,6 +17,7 @@ Definition obs_of (m : mres) : obs :=
   | MPos k => OPos k
   | MBool b => OBool b
   | MLine l => OLine (la l) (lb l) (lc l)
+  | MVals l => OVals l
   end.
 
 (** circle a = ((0,0), 1000), circle b = ((999.9993,0), 0.001) as binary64 values: a proper crossing,
